@@ -879,6 +879,15 @@ theorem layout_fg_rules (customDark : Bool) :
   refine ⟨rfl, rfl, fun isMsp => ⟨rfl, rfl, rfl, rfl, rfl, ?_⟩⟩
   cases customDark <;> rfl
 
+/-- the background policy changes the foreground colour used per entity, NOT the colours of the layer table, which `set_current_layout`
+    resolved before (`mkCtxBg`, quirk of the code: a layer colour from ACI 7 without the `has_aci_color_7` mark keeps the layout's default
+    foreground); with the DEFAULT policy both coincide -/
+theorem layer_colours_ignore_background_policy (bg : BgPolicy) (isMsp customDark : Bool) (aci : List Nat) (ex : Bool) (ls : List RawLayer) :
+    (mkCtxBg bg isMsp customDark aci ex ls).layers = (mkCtx (layoutFg .default isMsp customDark) aci ex ls).layers ∧
+    (mkCtxBg bg isMsp customDark aci ex ls).fg = layoutFg bg isMsp customDark ∧
+    mkCtxBg .default isMsp customDark aci ex ls = mkCtx (layoutFg .default isMsp customDark) aci ex ls :=
+  ⟨rfl, rfl, rfl⟩
+
 /-- 3DFACE (fix bb5ad742d): hidden by its invisible flag and by the state of its resolved layer like every other entity,
     and additionally when all four edges are invisible -/
 theorem face3d_hidden_rules (ctx : Ctx) (allEdgesHidden : Bool) (key : String) (e : EProps) :
